@@ -353,6 +353,31 @@ def run(world, rep, tier, only=None):
                        (m.text()[:30], m.line, w_.text()[:40]))
     rep.floor("C10.i rewrite-then-write pairs in the namespace code", n_i, 6)
 
+    # ------------------------------------------------------------------ C10.j creation commands resolve the path and refuse an existing name
+    # ext2fs_link() and do_mknod_internal() take a *name* and the directory to put it in, and add the entry without
+    # looking: the command level has to cut the path at its last '/' (a name containing one is not a valid entry) and
+    # to look the name up first (or create through ext2fs_mkdir/ext2fs_symlink, which do the lookup themselves).
+    may_lookup = dbg.may(lambda f, n: is_call(n, "ext2fs_lookup", "ext2fs_namei"))
+    n_j = 0
+    for (fname, ffile, callee) in (("do_write_internal", "misc/create_inode.c", "ext2fs_link"),
+                                   ("do_mkdir_internal", "misc/create_inode.c", "ext2fs_mkdir"),
+                                   ("do_symlink_internal", "misc/create_inode.c", "ext2fs_symlink"),
+                                   ("do_mknod", "debugfs/debugfs.c", "do_mknod_internal")):
+        f = dbg.fn(fname, ffile)
+        cs = calls_to(f, callee)
+        rep.floor("C10.j creating call in %s" % fname, len(cs), 1)
+        split = [n for n in calls_to(f, "strrchr") if T.const(arg(n, 1)) == 47]
+        looks = calls_to(f, "ext2fs_namei", "ext2fs_lookup")
+        for i, c in enumerate(cs):
+            n_j += 1
+            rep.ob("C10.j", site(f, "path cut at its last '/' before %s#%d" % (callee, i)), bool(split) and f.dominated_by(c, split),
+                   "strrchr(name, '/') dominates the creating call")
+            self_looks = any(g.key in may_lookup for g in dbg.callees(f, c.ev["x"]))
+            rep.ob("C10.j", site(f, "existing name refused before %s#%d" % (callee, i)),
+                   self_looks or (bool(looks) and f.dominated_by(c, looks)),
+                   "%s looks the name up itself: %s; a lookup dominates the call: %s" %
+                   (callee, self_looks, bool(looks) and f.dominated_by(c, looks)))
+
     # ------------------------------------------------------------------ C10.f link/unlink report the outcome
     for (file, name, cb, nf) in (("lib/ext2fs/unlink.c", "ext2fs_unlink", "unlink_proc", "EXT2_ET_DIR_NO_SPACE"),
                                  ("lib/ext2fs/link.c", "ext2fs_link", "link_proc", "EXT2_ET_DIR_NO_SPACE")):
